@@ -262,7 +262,9 @@ let run_ns (dir : string) (nsout : string) =
       | "NS" -> let g = ref [] in groups := (t.(2), g) :: !groups; cur := Some g
       | _ -> (match !cur with Some g -> g := l :: !g | None -> ())) lines;
   let n_sc = ref 0 and n_cmp = ref 0 and n_diffs = ref 0 and n_hits = ref 0 and n_guarded = ref 0 and n_sel = ref 0
-  and n_virtual_present = ref 0 and n_real_bin = ref 0 and n_ioerr = ref 0 and n_samples = ref 0 in
+  and n_virtual_present = ref 0 and n_real_bin = ref 0 and n_ioerr = ref 0 and n_samples = ref 0
+  and n_open = ref 0 and n_log_used = ref 0 and n_log_unparsed_probe = ref 0 and n_log_disagree_probe = ref 0
+  and n_log_unparsed_real = ref 0 and n_log_disagree_real = ref 0 and n_list_unparsed = ref 0 and n_auto = ref 0 in
   List.iter (fun (spec, g) ->
       incr n_sc;
       let sl = List.map split_sp (read_lines spec) in
@@ -294,16 +296,17 @@ let run_ns (dir : string) (nsout : string) =
       let canon (p : bytes) = try Hashtbl.find canon_tbl (hex_of_bytes p) with Not_found -> (missing_oracle := true; None) in
       let glob (p : bytes) (nm : bytes) = try Hashtbl.find glob_tbl (hex_of_bytes p, hex_of_bytes nm) with Not_found -> (missing_oracle := true; false) in
       let find tag = List.find_opt (fun t -> t.(0) = tag) gl in
+      let cur_basis = ref "value" in
       let diff what impl model =
         incr n_diffs;
-        Printf.printf "DIFF class=SELECT scenario=%s what=%s impl=%s model=%s\n" spec what impl model in
+        Printf.printf "DIFF class=SELECT basis=%s scenario=%s what=%s impl=%s model=%s\n" !cur_basis spec what impl model in
       let hit clause engine observed expected =
         incr n_hits;
-        Printf.printf "HIT clause=%s engine=%s scenario=%s observed=%s expected=%s\n" clause engine spec observed expected in
+        Printf.printf "HIT clause=%s basis=%s engine=%s scenario=%s observed=%s expected=%s\n" clause !cur_basis engine spec observed expected in
       if List.exists (fun (_, p) -> is_virtual p) !truth then incr n_virtual_present;
       (* real extractor outputs on the scenario text (hooks) *)
       let rd = (match find "ND" with Some t -> parse_d t 2 | None -> Panic []) in
-      (* ---- model vs real listings *)
+      (* ---- model vs real listings (return values of the public functions) *)
       let enc_lk o = (match o with
           | OPanic _ -> "P" | OIoErr -> "E"
           | OOk l -> String.concat " " (("O " ^ string_of_int (List.length l)) :: List.map (fun (p, nm) -> hex_of_bytes p ^ " " ^ hex_of_bytes nm) l)) in
@@ -315,17 +318,21 @@ let run_ns (dir : string) (nsout : string) =
       (match mlk with OIoErr -> incr n_ioerr | _ -> ());
       (match find "LK" with Some t -> incr n_cmp; if rest t 2 <> enc_lk mlk then diff "list_keyboards" (rest t 2) (enc_lk mlk) | None -> ());
       (match find "LD" with Some t -> incr n_cmp; if rest t 2 <> enc_ld mld then diff "list_input_devices" (rest t 2) (enc_ld mld) | None -> ());
-      (* ---- selection: "count n path flag .." *)
-      let model_sa = (match mlk with
-          | OOk devs ->
-            let fl = flag_excluded glob devs excl in
+      (* ---- the model's selections: ordered lists of what is selected; None: the listing itself fails *)
+      let model_fl = (match mlk with OOk devs -> Some (flag_excluded glob devs excl) | _ -> None) in
+      let model_sel_all : bytes list option =
+        (match model_fl with Some fl -> Some (List.filter_map (fun ((p, _), x) -> if x then None else Some p) fl) | None -> None) in
+      let model_sa = (match model_fl with
+          | Some fl ->
             let cnt = List.length (List.filter (fun (_, x) -> not x) fl) in
             String.concat " " ((string_of_int cnt ^ " " ^ string_of_int (List.length fl)) :: List.map (fun ((p, _), x) -> hex_of_bytes p ^ " " ^ (if x then "1" else "0")) fl)
-          | _ -> "-1 0") in
-      let model_sd = (match filter_devices glob sys_devnode canon text args true excl with
+          | None -> "-1 0") in
+      let model_fd = filter_devices glob sys_devnode canon text args true excl in
+      let model_sel_dev : bytes list option =
+        (match model_fd with OOk sel -> Some (List.filter (fun a -> List.exists (fun s -> beq_bytes s a) sel) args) | _ -> None) in
+      let model_sd = (match model_fd with
           | OOk sel ->
-            (* the harness reports, per argument in order, whether it was NOT skipped;
-               duplicates among the arguments do not occur in the generator *)
+            (* the harness reports, per argument in order, whether it was NOT skipped *)
             String.concat " " ((string_of_int (List.length sel) ^ " " ^ string_of_int (List.length args))
                                :: List.map (fun a -> hex_of_bytes a ^ " " ^ (if List.exists (fun s -> beq_bytes s a) sel then "1" else "0")) args)
           | _ -> "-1 " ^ string_of_int (List.length args) ^ String.concat "" (List.map (fun a -> " " ^ hex_of_bytes a ^ " 1") args)) in
@@ -336,42 +343,91 @@ let run_ns (dir : string) (nsout : string) =
       let sel_of_sd (t : string array) off : bytes list =
         let n = int_of_string t.(off + 1) in
         List.filter_map (fun i -> if t.(off + 3 + 2 * i) = "1" then Some (bytes_of_hex t.(off + 2 + 2 * i)) else None) (List.init n (fun i -> i)) in
-      let check_selection engine (sa : (string array * int) option) (sd : (string array * int) option) =
-        (match sa with
-         | Some (t, off) ->
-           incr n_cmp;
-           if rest t off <> model_sa then diff (engine ^ ":all-keyboards") (rest t off) model_sa;
-           let sel = sel_of_sa t off in
-           n_sel := !n_sel + List.length sel;
-           if not (no_virtual_listed !truth sel) then hit "C16.virtual" engine (enc_paths sel) "no node of a /devices/virtual/input/ device";
-           (match rd with
-            | Ok ds when lookups_ok_b sys_devnode true ds && int_of_string t.(off) >= 0 ->
+      (* ---- PRIMARY observation: the nodes of /dev/input the run opened (names, hexadecimal).  The loop opens the
+         selected nodes in order and stops at the first failure, and a fabricated node always fails (plain file), so
+         a run of --all-keyboards / --dev-file opens the first selected node that exists; the auto mode opens every
+         selected node that exists.  Accepted: only selected nodes are opened, and the first selected one is among
+         them when it exists (strict = false); exactly the selected existing nodes (strict = true, auto mode). *)
+      let basename (p : bytes) : string =
+        let rec go acc l = (match l with [] -> List.rev acc | x :: r -> if int_of_n x = 47 then go [] r else go (x :: acc) r) in
+        hex_of_bytes (go [] p) in
+      let opens_of tag : string list option =
+        (match find tag with
+         | Some t when Array.length t > 2 && t.(2) <> "-" -> let n = int_of_string t.(2) in Some (List.init n (fun i -> t.(3 + i)))
+         | _ -> None) in
+      let existing_names (sel : bytes list) : string list =
+        List.filter_map (fun p -> match canon p with Some q -> Some (basename q) | None -> None) sel in
+      let first_name (sel : bytes list) : string option =
+        (match sel with [] -> None | p :: _ -> (match canon p with Some q -> Some (basename q) | None -> None)) in
+      let opens_ok (strict : bool) (o : string list) (sel : bytes list) : bool =
+        let names = existing_names sel in
+        if strict then List.sort_uniq compare o = List.sort_uniq compare names
+        else List.for_all (fun x -> List.mem x names) o && (match first_name sel with Some f -> List.mem f o | None -> true) in
+      let show_names l = if l = [] then "-" else String.concat "," l in
+      let node_of_name nm = bytes_of_hex ("2f6465762f696e7075742f" ^ nm) (* "/dev/input/" ^ name *) in
+      let guard_all () = (match rd with Ok ds when lookups_ok_b sys_devnode true ds && model_sel_all <> None -> Some (spec_all glob sys_devnode excl ds) | _ -> None) in
+      let guard_dev () = (match rd with
+          | Ok ds when model_sel_dev <> None && lookups_ok_b sys_devnode false ds && canon_distinct_b sys_devnode canon ds
+                       && canon_clean_b canon (args @ List.map fst (listed sys_devnode ds)) -> Some (spec_dev_file glob sys_devnode canon excl ds args)
+          | _ -> None) in
+      let check_open engine mode (strict : bool) otag (msel : bytes list option) (guard : unit -> bytes list option) clause =
+        (match opens_of otag with
+         | None -> ()
+         | Some o ->
+           incr n_open; incr n_cmp;
+           cur_basis := "open";
+           n_sel := !n_sel + List.length o;
+           let sel = (match msel with Some l -> l | None -> []) in
+           if not (opens_ok strict o sel) then
+             diff (engine ^ ":" ^ mode ^ (if strict then ":opens-all" else ":opens-first")) (show_names o) (show_names (existing_names sel));
+           let opaths = List.map node_of_name o in
+           if not (no_virtual_listed !truth opaths) then hit "C16.virtual" engine ("opened:" ^ enc_paths opaths) "no node of a /devices/virtual/input/ device";
+           (match guard () with
+            | Some exp ->
               incr n_guarded;
-              let exp = spec_all glob sys_devnode excl ds in
-              if not (beq_list beq_bytes sel exp) then hit "C16.select_all" engine (enc_paths sel) (enc_paths exp)
-            | _ -> ())
-         | None -> ());
-        (match sd with
-         | Some (t, off) ->
-           incr n_cmp;
-           if rest t off <> model_sd then diff (engine ^ ":dev-file") (rest t off) model_sd;
-           let ok = int_of_string t.(off) >= 0 in
-           let sel = if ok then sel_of_sd t off else [] in
-           n_sel := !n_sel + List.length sel;
-           let csel = List.filter_map canon sel in
-           if ok && not (no_virtual_listed !truth csel) then hit "C16.virtual" engine (enc_paths sel) "no node of a /devices/virtual/input/ device";
-           (match rd with
-            | Ok ds when ok && lookups_ok_b sys_devnode false ds && canon_distinct_b sys_devnode canon ds
-                         && canon_clean_b canon (args @ List.map fst (listed sys_devnode ds)) ->
-              incr n_guarded;
-              let exp = spec_dev_file glob sys_devnode canon excl ds args in
-              if not (beq_list beq_bytes sel exp) then hit "C16.select_devfile" engine (enc_paths sel) (enc_paths exp)
-            | _ -> ())
-         | None -> ()) in
-      check_selection "listing"
-        (match find "SA" with Some t -> Some (t, 3) | None -> None)
-        (match find "SD" with Some t -> Some (t, 3) | None -> None);
+              if not (opens_ok strict o exp) then
+                hit clause engine ("opened:" ^ enc_paths opaths) ((if strict then "opens-exactly:" else "opens-first-of:") ^ enc_paths exp)
+            | None -> ())) in
+      (* ---- SECONDARY observation: what the verbose log says.  Used only when it has the expected shape (header,
+         list lines, a count that equals the number of entries it reports as selected) AND agrees with the opens;
+         otherwise it is counted (unparsed / disagree) and gives no verdict. *)
+      let log_bad kind what =
+        (match kind, what with
+         | "probe", "unparsed" -> incr n_log_unparsed_probe | "probe", _ -> incr n_log_disagree_probe
+         | _, "unparsed" -> incr n_log_unparsed_real | _, _ -> incr n_log_disagree_real) in
+      let check_log engine kind mode (strict : bool) tag otag (is_dev : bool) model_str (model_fails : bool) (guard : unit -> bytes list option) clause =
+        (match find tag with
+         | None -> ()
+         | Some t ->
+           let off = 3 in
+           let parsed = (try int_of_string t.(off) >= 0 with _ -> false) in
+           let sel = if parsed then (try (if is_dev then sel_of_sd t off else sel_of_sa t off) with _ -> []) else [] in
+           let shape_ok = parsed && (try int_of_string t.(off) = List.length sel with _ -> false) in
+           if not shape_ok then begin
+             (* no list in the log: the expected thing when the listing itself fails *)
+             if not (model_fails && not parsed) then log_bad kind "unparsed"
+           end else begin
+             let agrees = (match opens_of otag with Some o -> opens_ok strict o sel | None -> true) in
+             if not agrees then log_bad kind "disagree"
+             else begin
+               incr n_log_used; incr n_cmp;
+               cur_basis := "log";
+               if rest t off <> model_str then diff (engine ^ ":" ^ mode) (rest t off) model_str;
+               let csel = if is_dev then List.filter_map canon sel else sel in
+               if not (no_virtual_listed !truth csel) then hit "C16.virtual" engine (enc_paths sel) "no node of a /devices/virtual/input/ device";
+               (match guard () with
+                | Some exp -> incr n_guarded; if not (beq_list beq_bytes sel exp) then hit clause engine (enc_paths sel) (enc_paths exp)
+                | None -> ())
+             end
+           end) in
+      let check_selection engine kind pa pd =
+        check_open engine "all-keyboards" false (pa ^ "O") model_sel_all guard_all "C16.select_all";
+        check_open engine "dev-file" false (pd ^ "O") model_sel_dev guard_dev "C16.select_devfile";
+        check_log engine kind "all-keyboards" false pa (pa ^ "O") false model_sa (model_sel_all = None) guard_all "C16.select_all";
+        check_log engine kind "dev-file" false pd (pd ^ "O") true model_sd (model_sel_dev = None) guard_dev "C16.select_devfile" in
+      check_selection "listing" "probe" "SA" "SD";
       (* listings returned by the public functions: no virtual node either *)
+      cur_basis := "value";
       (match find "LD" with
        | Some t when t.(2) = "O" ->
          let n = int_of_string t.(3) in
@@ -387,25 +443,37 @@ let run_ns (dir : string) (nsout : string) =
       (* ---- the real binary *)
       (match find "RK" with
        | Some t ->
-         incr n_real_bin; incr n_cmp;
+         incr n_real_bin;
          let n = int_of_string t.(3) in
          let got = List.init n (fun i -> t.(4 + i)) in
          let exp = (match mlk with
              | OOk l -> List.map (fun (p, nm) -> hex_of_bytes (nm @ [nb.(58); nb.(32)] @ p)) l
              | _ -> []) in
-         (* a name with a line break prints as two lines: compare the joined output *)
-         if String.concat "0a" got <> String.concat "0a" exp then diff "real-binary:list_keyboards" (String.concat "," got) (String.concat "," exp)
+         (* `list_keyboards` prints "<name>: <path>" lines; output of another shape (also: a name with a line break) is
+            not judged *)
+         let has_sub (h : string) (needle : string) =
+           let ln = String.length needle and lh = String.length h in
+           let rec go i = i + ln <= lh && (String.sub h i ln = needle || go (i + 2)) in go 0 in
+         let shaped = List.for_all (fun h -> has_sub h "3a202f6465762f") got (* ": /dev/" *) in
+         if not shaped then incr n_list_unparsed
+         else begin
+           incr n_cmp; cur_basis := "listout";
+           if String.concat "0a" got <> String.concat "0a" exp then diff "real-binary:list_keyboards" (String.concat "," got) (String.concat "," exp)
+         end
        | None -> ());
-      check_selection "listing(real-binary)"
-        (match find "RA" with Some t -> Some (t, 3) | None -> None)
-        (match find "RD" with Some t -> Some (t, 3) | None -> None);
+      check_selection "listing(real-binary)" "real" "RA" "RD";
+      (* the auto mode of the real binary: every selected node is opened *)
+      check_open "listing(real-binary)" "auto-all-keyboards" true "RUO" model_sel_all guard_all "C16.select_all";
+      check_log "listing(real-binary)" "real" "auto-all-keyboards" true "RU" "RUO" false model_sa (model_sel_all = None) guard_all "C16.select_all";
+      (match find "RUO" with Some _ -> incr n_auto | None -> ());
       if !missing_oracle then Printf.printf "NOTE scenario=%s the model asked an oracle question the recording does not answer\n" spec;
       if !n_samples < 2 then begin
         incr n_samples;
         Printf.printf "NSSAMPLE scenario=%s text=%s args=%s excludes=%s all_keyboards=%s dev_file=%s\n" spec (hex_of_bytes text) (enc_paths args) (enc_paths excl) model_sa model_sd
       end) (List.rev !groups);
-  Printf.printf "NSSUMMARY ns_scenarios=%d ns_comparisons=%d ns_guarded_spec_checks=%d ns_selected_nodes=%d ns_scenarios_with_virtual_node=%d ns_real_binary_scenarios=%d ns_ioerr_scenarios=%d ns_diffs=%d ns_hits=%d\n"
-    !n_sc !n_cmp !n_guarded !n_sel !n_virtual_present !n_real_bin !n_ioerr !n_diffs !n_hits
+  Printf.printf "NSSUMMARY ns_scenarios=%d ns_comparisons=%d ns_guarded_spec_checks=%d ns_selected_nodes=%d ns_scenarios_with_virtual_node=%d ns_real_binary_scenarios=%d ns_ioerr_scenarios=%d ns_diffs=%d ns_hits=%d ns_open_observations=%d ns_auto_mode_runs=%d ns_log_used=%d ns_log_unparsed_probe=%d ns_log_disagree_probe=%d ns_log_unparsed_real=%d ns_log_disagree_real=%d ns_list_output_unparsed=%d\n"
+    !n_sc !n_cmp !n_guarded !n_sel !n_virtual_present !n_real_bin !n_ioerr !n_diffs !n_hits !n_open !n_auto !n_log_used
+    !n_log_unparsed_probe !n_log_disagree_probe !n_log_unparsed_real !n_log_disagree_real !n_list_unparsed
 
 let () =
   match Array.to_list Sys.argv with
